@@ -393,6 +393,22 @@ def lazy_work(payload):
                         if not same(part, wantk):
                             res.violation("lazy:content|%s" % _sfp(desc), "batch %d of LazyCall over %r (batch=%d) differs from eager" % (kk, desc, b), dict(case, batch=b))
                             break
+                # copies and replaced fields must not alias the original (lazy and eager alike)
+                from tf_pwa.data import data_replace
+
+                before = lz.eval()
+                cp = lz.copy()
+                cp["weight"] = np.full(N, 7.0)
+                rp = data_replace(lz, "weight", np.full(N, 9.0))
+                res.case(nontrivial_key=("lazy-copy", repr(desc), N, bool(extra)))
+                if not same(lz.eval(), before):
+                    res.violation("lazy:aliasing", "assigning a field of LazyCall.copy() / data_replace(lazy, ...) changed the original lazy data (%r)" % (desc,), case)
+                if not (np.all(np.asarray(rp.eval()["weight"]) == 9.0) and np.all(np.asarray(cp.eval()["weight"]) == 7.0)):
+                    res.violation("lazy:replace", "data_replace / copy of lazy data does not carry the new field (%r)" % (desc,), case)
+                ed = dict(eager, **extra)
+                er = data_replace(ed, "weight", np.full(N, 9.0))
+                if not same(ed, dict(eager, **extra)) or not np.all(np.asarray(er["weight"]) == 9.0):
+                    res.violation("eager:replace", "data_replace on eager data modified its input or lost the field", case)
                 # merge of two lazy objects == lazy of the merged input
                 lz2 = LazyCall(f, x)
                 for k, v in extra.items():
